@@ -132,7 +132,7 @@ def _run_seed(args):
 def _patch_items():
     """Behaviour-preserving refactoring patches written by independent engineers (refactors/<Cxx>/refactorN.diff)."""
     out = []
-    for corpus in ('refactors', 'refactors2'):
+    for corpus in ('refactors', 'refactors2', 'refactors3'):
         root = os.path.join(os.path.dirname(os.path.dirname(os.path.abspath(__file__))), corpus)
         if os.path.isdir(root):
             for d in sorted(os.listdir(root)):
